@@ -6,6 +6,8 @@ const MAXD: usize = 330; // longest dynamic/auto vector generated (crosses 64, 1
 fn scale(tier: &str, quick: usize) -> usize {
     if tier == "thorough" {
         quick * 20
+    } else if tier == "amp" {
+        quick * 6
     } else {
         quick
     }
